@@ -503,7 +503,7 @@ def check_tt(pid, tier, seed):
     cfgs = [(1, 1), (2, 2), (3, 1), (2, 3)]
     k = 0
     for threads in ([2, 4, 8, 16, 32] if quick else [2, 3, 4, 8, 12, 16, 24, 32]):
-        for pattern in ["aligned", "collide", "uniform"]:
+        for pattern in ["aligned", "collide", "uniform", "highbits"]:
             for rep in range(1 if quick else 4):
                 t, b = cfgs[k % len(cfgs)]
                 k += 1
